@@ -236,6 +236,8 @@ def _gen_iter(it):
 def cstr(n: ast.AST) -> str:
     if isinstance(n, ast.Call):
         f = cstr(n.func)
+        if not n.args and not n.keywords and f in ('dict', 'list', 'tuple'):
+            return {'dict': '{}', 'list': '[]', 'tuple': '()'}[f]            # dict() is {}, list() is []
         if f == 'dict' and len(n.args) == 1 and not n.keywords and isinstance(n.args[0], (ast.GeneratorExp, ast.ListComp)) \
                 and isinstance(n.args[0].elt, ast.Tuple) and len(n.args[0].elt.elts) == 2:
             # dict((k, v) for ...) is the dict comprehension {k: v for ...}
